@@ -46,7 +46,7 @@ fn total_cases(id: &str, t: Tier) -> u64 {
     if id == "C03" {
         t.pick(2000, 40_000)
     } else {
-        t.pick(1200, 24_000)
+        t.pick(1000, 24_000)
     }
 }
 
